@@ -244,6 +244,36 @@ def main():
             failures += engine.run_histories(hs, harness, proj, stats) if hs else []
             failures += engine.run_histories(props.WORKLOADS[pid](tier, rng), harness, proj, stats)
 
+    # ---- 2b. C07 / C15 also say "never reads or writes out of bounds": the same workload once more under
+    #          libstdc++'s debug mode, whose assertions see what ASan cannot (an access inside a small-string
+    #          buffer, `back()` of an empty string, an invalidated iterator)
+    debug_mode = None
+    if pid in ("C07", "C15") and harness and special is not None and os.path.exists(core.DRIVER) and not args.replay:
+        cfg = special.CONFIGS_QUICK[1]
+        try:
+            dbg = core.build_harness(name="bgh17-" + cfg[0], flags=cfg[2], compiler=cfg[1], defines=cfg[3])
+            st2 = engine.Stats()
+            f2 = engine.run_histories(props.WORKLOADS[pid](tier, random.Random(seed)), dbg, proj, st2)
+            debug_mode = {"configuration": cfg[0], "histories": st2.evaluations, "mismatches": len(f2)}
+            for k, fl in enumerate(f2[:2]):
+                try:
+                    shrunk = engine.shrink(fl["ops"], dbg, proj, fl["mismatch"]["kind"], budget=60)
+                except Exception:
+                    shrunk = fl["ops"]
+                m = fl["mismatch"]
+                text = [f"# property {pid}: under libstdc++ debug mode ({cfg[1]} {' '.join(cfg[2] + cfg[3])}) this history does not",
+                        "# produce the model's transcript: a debug-mode assertion (an out-of-bounds or otherwise undefined access)",
+                        f"# first differing step {m['step']}: {m['op']}"] + shrunk
+                text += ["# --- this configuration said ---"] + ["#   " + l for l in m["impl"][:30]]
+                text += ["# --- model said ---"] + ["#   " + l for l in m["model"][:30]]
+                if m.get("impl_err"):
+                    text += ["# --- stderr ---"] + ["#   " + l for l in m["impl_err"].split("\n")[-25:]]
+                p = core.write_replay(pid, f"debugmode-{k + 1}.ops", "\n".join(text) + "\n")
+                violation(p)
+        except core.BuildError as e:
+            p = core.write_replay(pid, "harness-build-debugmode.txt", f"# harness does not build in libstdc++ debug mode\n{e.output[-4000:]}\n")
+            violation(p, nofail=True)
+
     # ---- 3. classify, shrink, report
     reported = set()
     failures.sort(key=lambda f: 0 if f["mismatch"]["kind"] == "violation" else 1)
@@ -292,6 +322,8 @@ def main():
         "correspondence_failures": len(failures),
         "theorems": thms,
     })
+    if debug_mode is not None:
+        cov["libstdcxx_debug_mode"] = debug_mode
     if api is not None:
         cov["entry_points_taking_a_vertex_index"] = api[0]
         cov["entry_points_not_covered"] = api[1]
